@@ -1,6 +1,11 @@
 """C19 — HTML import is total and schema-valid; export then import is the identity.
 
 Only part of this property is logic a model can carry; the rest lives in lxml, cssselect and `re`.
+Import side (PM/FromDom.lean): `ParseContext.matches_context` (exact tie on real ParseContext objects with generated
+stacks x generated expressions; theorem matchesContext_spec) and the node-placement core (find_place, insert_node,
+enter, enter_inner, close_extra, sync, finish, NodeContext.find_wrapping / finish, pending / active / stash marks),
+tied by recorded events of real `parse` / `parse_slice` runs (theorems placement_match_coherent,
+placement_finish_valid_partial).
 Lean part (Props/C19.lean): the escaping contract of the serializer (`unescape (escape s) = s`, output
 free of raw `< > & "`) and the mark-nesting discipline of `serialize_fragment` (model PM/Dom.lean),
 tied by exact correspondence of the serialised HTML of generated documents.
@@ -507,6 +512,14 @@ def run(ctx):
             if bad:
                 ctx.violation("context-rule", "a context-restricted parse rule was applied where the open ancestors do not match, or not applied where they do: " + bad[0], dict(replay, doc=j))
     if preqs:
+        # the decidable schema hypotheses of the placement theorems (Det, TextStable) on every schema of the tie
+        hyp_infos = list(infos.values())
+        houts = ctx.driver.run([{"op": "domHyps", "s": ctx.driver.add_schema(i)} for i in hyp_infos])
+        for i, o in zip(hyp_infos, houts):
+            h = o.get("ok") or {}
+            ctx.count("theorem_hypotheses_hold" if h.get("det") and h.get("textStable") else "theorem_hypotheses_fail:" + i.name)
+            if not (h.get("det") and h.get("textStable")):
+                ctx.notes.append(f"schema {i.name}: Det={h.get('det')} TextStable={h.get('textStable')} — the placement theorems do not apply to it")
         outs = ctx.driver.run(preqs)
         for (replay, info, pc, kind), out in zip(pmetas, outs):
             ctx.count("model_requests")
@@ -559,7 +572,9 @@ def run(ctx):
              "attributes, missing attributes, comments) parsed under the basic / list / context-rule schema, or a generated valid "
              "document of the bundled schemas serialised and — when whitespace-normal with attributes the rules carry — parsed back",
         level_note="partial: termination and crash-freedom of DOM walking, rule/selector/regex matching and lxml parsing live in external "
-                   "C libraries and `re` and are decided by search only; the placement core of the parser is not modelled")
+                   "C libraries and `re` and are decided by search only; modelled and tied on the import side: context expressions "
+                   "(matches_context, exact) and the placement core of ParseContext/NodeContext (recorded-event tie: the real parse's "
+                   "calls into the core are replayed through the model, per-event observations and the final document compared)")
 
 
 if __name__ == "__main__":
